@@ -74,12 +74,15 @@ CHECKS = {
           'off the model\'s own cfstrain_donnell / cfstrain_sanders (d/dxb of the closed form == integrand, value 0 at xb = xa; theta integral by orthogonality), which '
           'also gives symmetry and positive semi-definiteness (Gram form).  fsdt_donnell_* and clpt_donnell_bcn: Gram representation with the Donnell operator applied '
           'to the model\'s own cfuvw field.  Every model: fk0_cyl / fkG0_cyl equal the cone kernels at alpha = 0 summed over the sections; fkG0 entries are homogeneous '
-          'linear forms in (Fc, P, T); iso_ kernels equal the general kernels with the isotropic ABD of ConeCyl._rebuild; no division by zero under the guards; no read '
-          'of a local before its assignment in the iteration.'),
+          'linear forms in (Fc, P, T); iso_ kernels equal the general kernels with the isotropic ABD of ConeCyl._rebuild; fk0edges is the Hessian of the elastic edge energy '
+          '(sum over edges and restrained fields of k int f_A f_B r dtheta, fields from cfuvw), a sum of Gram matrices for k >= 0; no division by zero under the guards; '
+          'no read of a local before its assignment in the iteration.  ConeCyl._calc_linear_matrices / modelDB.get_linear_matrices are executed symbolically for 17 models x '
+          'cone/cylinder x combined load case x F_reuse: kernel dispatch, every argument by the parameter name of the real .pyx signature, constitutive matrix, '
+          'Fc from Nxxtop, symmetrisation, partition.'),
     design_ref='DESIGN.md section 10.6 (C16)',
     note=('cone matrices: stated for the kernel\'s own quadrature (radius frozen per meridian section; exact for cylinders); fsdt_sanders_bcn has no strain function '
-          'and no Gram representation at hand: its positive semi-definiteness is not decided; fk0edges and the Python method ConeCyl._calc_linear_matrices are not yet '
-          'under contract; the geier1997/shadmehri2012 modules are not covered; 60 known findings in the two fsdt bcn modules; the compiled extensions cannot be rebuilt '
+          'and no Gram representation at hand: its positive semi-definiteness is not decided; ConeCyl.lb/eigen (eigen-solver wrappers) are not under contract; '
+          'the geier1997/shadmehri2012 modules are not covered; 60 known findings in the two fsdt bcn modules; the compiled extensions cannot be rebuilt '
           'here, so numeric replays show the installed binary'),
     technique='contracts + symbolic execution of the extracted .pyx (generic-iteration schema, local path exploration); trigonometric normal form; formal differentiation; z3 for index cases and divisors'),
  'C17': dict(
